@@ -211,7 +211,8 @@ def _imp_net():
     return _cache["imp"]
 
 
-def make_impedance():
+def make_impedance(same=()):
+    """same: parameters whose to-side value equals the from-side value (asymmetry in r only, in x only, in the shunt parts only, none)"""
     def fn(ctx):
         bb = ctx.load("pandapower.build_branch")
         mY = ctx.load("pandapower.pypower.makeYbus")
@@ -219,6 +220,9 @@ def make_impedance():
         rng = {"rft_pu": (0.001, 1.), "xft_pu": (0.001, 1.), "rtf_pu": (0.001, 1.), "xtf_pu": (0.001, 1.), "gf_pu": (0., 1.), "bf_pu": (-1., 1.),
                "gt_pu": (0., 1.), "bt_pu": (-1., 1.), "sn_mva": (1., 100.)}
         V = {c: ctx.var(c, *r) for c, r in rng.items()}
+        for tf, ft in (("rtf_pu", "rft_pu"), ("xtf_pu", "xft_pu"), ("gt_pu", "gf_pu"), ("bt_pu", "bf_pu")):
+            if tf in same:
+                V[tf] = V[ft]
         for c in rng:
             setcol(ctx, net.impedance, c, [V[c]])
         sn = ctx.var("net_sn_mva", 1., 1000.)
@@ -379,8 +383,9 @@ def make_results(trafo_loading):
 
 
 # ------------------------------------------------------------------------------------------------- DC model
-def make_dc():
-    """linear DC model: real makeBdc and the result lines of the real _run_dc_pf (linear solve replaced by its contract)"""
+def make_dc(gens=((0, True),)):
+    """linear DC model: real makeBdc and the result lines of the real _run_dc_pf (linear solve replaced by its contract)
+    gens: (bus, is reference generator) per generator row - e.g. an ext_grid and a PV gen sharing the slack bus"""
     def fn(ctx):
         dc = ctx.load("pandapower.pf.run_dc_pf")
         mB = ctx.load("pandapower.pypower.makeBdc")
@@ -390,7 +395,7 @@ def make_dc():
         from pandapower.pypower.idx_brch import F_BUS, T_BUS, BR_X, TAP, SHIFT, BR_STATUS, PF, PT, QF, QT, branch_cols
         ft = [(0, 1), (1, 2), (0, 2)]
         nb, nl = 3, 3
-        bus, gen = c01._bus_gen_arrays(ctx, nb, 1)
+        bus, gen = c01._bus_gen_arrays(ctx, nb, len(gens))
         branch = ctx.obj(np.zeros((nl, branch_cols)))
         x, tap, shift = [], [], []
         for k, (f, t) in enumerate(ft):
@@ -406,7 +411,11 @@ def make_dc():
             pd_.append(ctx.var(f"pd{b}", -5., 5.))
             bus[b, PD] = pd_[b]
             bus[b, GS] = ctx.var(f"gs{b}", 0., 1.)
-        gen[0, GEN_BUS], gen[0, GEN_STATUS], gen[0, PG] = 0, 1, 0.0
+        pg_set = []
+        for g, (gb, is_ref) in enumerate(gens):
+            pg_set.append(0.0 if is_ref else ctx.var(f"pg_set{g}", -5., 5.))
+            gen[g, GEN_BUS], gen[g, GEN_STATUS], gen[g, PG] = gb, 1, pg_set[g]
+        ref_gens = np.array([g for g, (gb, is_ref) in enumerate(gens) if is_ref])
         base = 10.0
         Bbus, Bf, Pbusinj, Pfinj, Cft = mB.makeBdc(bus, branch)
         BF = Bf.toarray() if hasattr(Bf, "toarray") else np.asarray(Bf)
@@ -436,7 +445,8 @@ def make_dc():
             return ctx.array(th)
 
         def fake_vars(ppci_, *a):
-            return (base, bus, gen, branch, None, None, None, None, np.array([0]), np.array([], dtype=int), np.array([1, 2]), None, None, np.array([0]))
+            pvb = np.array(sorted({gb for gb, is_ref in gens if gb != 0}), dtype=int)
+            return (base, bus, gen, branch, None, None, None, None, np.array([0]), pvb, np.array([b for b in (1, 2) if b not in pvb]), None, None, ref_gens)
         with patched(dc, dcpf=fake_dcpf, _get_pf_variables_from_ppci=fake_vars, _store_results_from_pf_in_ppci=lambda ppci_, bus_, gen_, branch_, *a: ppci_):
             dc._run_dc_pf(ppci, False)
         for k, (f, t) in enumerate(ft):
@@ -451,7 +461,16 @@ def make_dc():
                 out0 = out0 + branch[k, PF]
             if t == 0:
                 out0 = out0 + branch[k, PT]
-        ctx.eq("slack_generation_balances_its_bus", gen[0, PG], out0 + pd_[0] + bus[0, GS])
+        at_slack = 0.0
+        for g, (gb, is_ref) in enumerate(gens):
+            if gb == 0:
+                at_slack = at_slack + gen[g, PG]
+            if not is_ref:
+                ctx.eq(f"non_reference_generator_keeps_its_setpoint/gen{g}", gen[g, PG], pg_set[g])
+        ctx.eq("slack_generation_balances_its_bus", at_slack, out0 + pd_[0] + bus[0, GS])
+        refs_at_slack = [g for g, (gb, is_ref) in enumerate(gens) if is_ref]
+        for g in refs_at_slack[1:]:
+            ctx.eq(f"reference_generators_share_the_slack_power_equally/gen{g}", gen[g, PG], gen[refs_at_slack[0], PG])
     return fn
 
 
@@ -514,10 +533,17 @@ def make_trafo3w(loss_side="hv"):
 def instances(tier):
     out = [Inst("line", make_line(), nvars=20, samples=3, meta=dict(element="line")),
            Inst("dc_model", make_dc(), nvars=30, samples=2, meta=dict(part="DC power flow model")),
+           Inst("dc_model_gen_at_the_slack_bus", make_dc(((0, True), (0, False), (2, False))), nvars=34, samples=2, meta=dict(part="DC power flow model", generators="ext_grid + PV gen at the slack bus, PV gen elsewhere")),
+           Inst("dc_model_two_ext_grids", make_dc(((0, True), (0, True), (0, False))), nvars=34, samples=2, meta=dict(part="DC power flow model", generators="two ext_grids + PV gen at the slack bus")),
            Inst("results_current", make_results("current"), nvars=48, samples=2, raises=(UserWarning,), meta=dict(part="result side", trafo_loading="current")),
            Inst("results_power", make_results("power"), nvars=48, samples=2, raises=(UserWarning,), meta=dict(part="result side", trafo_loading="power")),
            Inst("impedance_switch", make_switch(), nvars=16, samples=3, meta=dict(element="bus-bus switch with z_ohm > 0")),
-           Inst("impedance", make_impedance(), nvars=20, samples=3, meta=dict(element="impedance"))]
+           Inst("impedance", make_impedance(), nvars=20, samples=3, meta=dict(element="impedance")),
+           Inst("impedance_asymmetric_in_x_only", make_impedance(("rtf_pu", "gt_pu", "bt_pu")), nvars=20, samples=3, meta=dict(element="impedance", asymmetric=["x"])),
+           Inst("impedance_asymmetric_in_r_only", make_impedance(("xtf_pu", "gt_pu", "bt_pu")), nvars=20, samples=3, meta=dict(element="impedance", asymmetric=["r"])),
+           Inst("impedance_asymmetric_in_b_only", make_impedance(("rtf_pu", "xtf_pu", "gt_pu")), nvars=20, samples=3, meta=dict(element="impedance", asymmetric=["b"])),
+           Inst("impedance_asymmetric_in_g_only", make_impedance(("rtf_pu", "xtf_pu", "bt_pu")), nvars=20, samples=3, meta=dict(element="impedance", asymmetric=["g"])),
+           Inst("impedance_symmetric", make_impedance(("rtf_pu", "xtf_pu", "gt_pu", "bt_pu")), nvars=20, samples=3, meta=dict(element="impedance", asymmetric=[]))]
     combos = [("None", "hv", "pi"), ("Ratio", "hv", "pi"), ("Ratio", "lv", "pi"), ("Ideal", "hv", "pi"), ("Ideal", "lv", "pi"),
               ("IdealPct", "hv", "pi"), ("IdealPct", "lv", "pi"), ("Ratio", "hv", "t")]
     if tier == "thorough":
